@@ -162,7 +162,7 @@ def run_sequences(pid, seed, cfg, seqs, wall, hashseed=0):
     return outs
 
 
-def process_history_violation(pid, seed, cfg, idx, W, wall, pred_b=None, hashseed=0, pred_a=None, max_trials=40):
+def process_history_violation(pid, seed, cfg, idx, W, wall, pred_b=None, hashseed=0, pred_a=None, max_trials=96):
     """Case idx gave different outcomes in the sweep worker (predecessors idx-W, idx-2W, ...) and in
     the echo worker (predecessors 0..idx-1, or pred_b).  Reproduce in fresh interpreters, then shrink
     the predecessor lists; the replay file names both."""
@@ -177,19 +177,29 @@ def process_history_violation(pid, seed, cfg, idx, W, wall, pred_b=None, hashsee
     alone, = run_sequences(pid, seed, cfg, [[idx]], wall, hashseed)
     ref = alone.get(idx) if alone else None
     side = pred_a if a.get(idx) != ref else pred_b
+    # ddmin over the predecessor list; every round tests its candidates in parallel interpreters
     trials = 0
-    changed = True
-    while changed and trials < max_trials and len(side) > 1:
-        changed = False
-        half = len(side) // 2
-        cands = [side[:half], side[half:]] + [side[:i] + side[i + 1:] for i in range(len(side))][:6]
+    n = 2
+    while len(side) > 1 and trials < max_trials:
+        size = max(1, len(side) // n)
+        chunks = [side[i:i + size] for i in range(0, len(side), size)]
+        cands = chunks + ([[x for c in chunks[:i] + chunks[i + 1:] for x in c] for i in range(len(chunks))] if len(chunks) > 2 else [])
+        cands = [c for c in cands if 0 < len(c) < len(side)][:16]
+        if not cands:
+            break
         outs = run_sequences(pid, seed, cfg, [c + [idx] for c in cands], wall, hashseed)
         trials += len(cands)
+        hit = None
         for c, o in zip(cands, outs):
-            if o is not None and o.get(idx) != ref:
-                side = c
-                changed = True
-                break
+            if o is not None and o.get(idx) != ref and (hit is None or len(c) < len(hit)):
+                hit = c
+        if hit is not None:
+            side = hit
+            n = max(2, n - 1) if len(hit) > size else 2
+        elif n >= len(side):
+            break
+        else:
+            n = min(len(side), n * 2)
     return {"property": pid, "signature": {"property": pid, "invariant": "I3:outcome_depends_on_process_history"},
             "sig_id": "ph-%d" % idx, "kind": "process_history",
             "case": {"mode": "process_history", "target": idx, "seed": seed, "tier_cfg": cfg,
